@@ -140,13 +140,19 @@ def pickAll (hs : List Nat) (g : Gt) : List Nat → Except HpErr Gt
         | .ok l => .ok (a :: l)
         | .error e => .error e
 
+/-- `(field[0], field[1])`; `none` = IndexError -/
+def pairOfField (f : List Nat) : Option (Nat × Nat) :=
+  match f.head?, f[1]? with
+  | some b, some h => some (b, h)
+  | _, _ => none
+
 /-- the assert loop, `block_id`, `order`: the pairs `(fields[i][0], fields[i][1])` -/
 def hpPairs (fields : List (List Nat)) : Except HpErr (List (Nat × Nat)) :=
   match fields with
   | [] => .error .index
   | f0 :: _ =>
     if !(fields.all fun f => f.head? == f0.head?) then .error .assertion
-    else match fields.mapM (fun f => match f.head?, f[1]? with | some b, some h => some (b, h) | _, _ => none) with
+    else match fields.mapM pairOfField with
       | some l => .ok l
       | none => .error .index
 
